@@ -1,0 +1,52 @@
+//go:build verif
+
+package aggsender
+
+import (
+	"context"
+	"fmt"
+	"time"
+
+	"github.com/agglayer/aggkit/aggsender/db"
+)
+
+// This file is only compiled with the `verif` build tag. It adds single-step entry points of the
+// send loop used by the runtime-verification harness (/verif) and does not change any existing
+// behaviour: each step calls the real sendCertificates(ctx, 1), so exactly one arm of the real
+// select statement runs.
+
+// VerifInit runs what Start runs before entering the send loop (compatibility check, recovery of
+// the initial status against the Agglayer, flow initial check). CheckInitialStatus retries until
+// it succeeds or ctx is cancelled: a cancelled context is reported as "refused to proceed".
+func (a *AggSender) VerifInit(ctx context.Context) error {
+	a.checkDBCompatibility(ctx)
+	a.certStatusChecker.CheckInitialStatus(ctx, a.cfg.DelayBetweenRetries.Duration, a.status)
+	if ctx.Err() != nil {
+		return fmt.Errorf("initial status check did not succeed: %s", a.status.LastError)
+	}
+	return a.flow.CheckInitialStatus(ctx)
+}
+
+// VerifEpochStep runs one iteration of the real loop on an epoch event (the epoch notifier passed
+// to New must deliver one event)
+func (a *AggSender) VerifEpochStep(ctx context.Context) {
+	a.cfg.CheckStatusCertificateInterval.Duration = 0
+	a.sendCertificates(ctx, 1)
+}
+
+// VerifStatusStep runs one iteration of the real loop on the status-check ticker (the epoch
+// notifier passed to New must not deliver an event)
+func (a *AggSender) VerifStatusStep(ctx context.Context) {
+	a.cfg.CheckStatusCertificateInterval.Duration = time.Nanosecond
+	a.sendCertificates(ctx, 1)
+}
+
+// VerifStorage returns the storage of the aggsender
+func (a *AggSender) VerifStorage() db.AggSenderStorage {
+	return a.storage
+}
+
+// VerifLastError returns the last error recorded in the status
+func (a *AggSender) VerifLastError() string {
+	return a.status.LastError
+}
